@@ -78,6 +78,21 @@ pub fn predicate(name: &str, sc: &Scenario, v: &Violation) -> bool {
             // with feeding the script when the shell went away, i.e. on the schedule)
             exits_early && unread > 16
         }
+        // R: a command that writes without pause keeps the subprocess crate's read loop busy;
+        // the loop looks at the deadline only when nothing is ready to be read
+        "output-flowing-at-deadline" => {
+            let Some(n) = &v.nonce else { return false };
+            let ops = sc.sim.programs.get(n).cloned().unwrap_or_default();
+            let total: u64 = ops
+                .iter()
+                .map(|o| match o {
+                    Op::Out { data, .. } => data.0.len() as u64,
+                    Op::OutRepeat { unit, times, .. } => unit.0.len() as u64 * *times,
+                    _ => 0,
+                })
+                .sum();
+            v.detail.contains("still reading") && total >= 256 * 1024
+        }
         // C: single-script mode recognises any output line containing the divider prefix as a
         // divider (the salt is never compared)
         "output-contains-divider-prefix" => sc.sim.programs.values().any(|ops| {
